@@ -11,7 +11,8 @@ import MpVerif.Gen.SolGuards
   `gsufread`/`Lget`/`sufheadcheck`); `fx = false` is the reader before that commit, kept as history
   (`C14_history_*`) and because the check decides by a behavioural probe which variant the tree under test
   implements — a tree that falls back to `fx = false` behaviour is reported as a violation.
-* `fm = true` is the reader with the proposed `repo_patches/C14-badoptions-message.diff`; `fm = false` the tree as it is.
+* `fm = true` is the reader **as it is in the tree** since ampl/mp 927b124 (Bad_Options carries a message; was `repo_patches/C14-badoptions-message.diff`);
+  `fm = false` is the reader before that commit (history; the probe selects it for a tree that loses the fix).
 
 All theorems quantify over **all** byte strings, **all** declared sizes and **all** handler
 policies that pass a documented error code (not OK) to `SetError` (`SanePol`).  `C14_codes` and `C14_buf`
@@ -247,13 +248,13 @@ theorem C14_regression_inputs_rejected :
     (readSol true false 0 0 readAll cexLget).code = .badLine ∧ (readSol true false 1 0 readAll cexHead).code = .badSuffix := by
   decide
 
-/-- **An error comes with a message** — reader with repo_patches/C14-badoptions-message.diff (`fm = true`):
+/-- **An error comes with a message** — the current tree (`fm = true`, since ampl/mp 927b124):
 every result other than OK has a non-empty message. -/
 theorem C14_error_has_message (fx : Bool) (nv nc : Nat) (pol : Policy) (bytes : Bytes) (hs : SanePol pol)
     (h1 : (readSol fx true nv nc pol bytes).code ≠ .ok) : (readSol fx true nv nc pol bytes).hasMsg = true :=
   (readSol_inv (nv := nv) (nc := nc) pol bytes hs).msg h1 (.inr rfl)
 
-/- Full-strength statement for the tree as it is (`fm = false`), FALSE: `code ≠ .ok → hasMsg = true`.
+/- History (`fm = false`, before 927b124): the full-strength statement was FALSE: `code ≠ .ok → hasMsg = true`.
 `OnAMPLOptions` returning non-zero makes the reader return `NLW2_SOLRead_Bad_Options` without calling `serror`. -/
 theorem C14_error_has_message_partial (fx fm : Bool) (nv nc : Nat) (pol : Policy) (bytes : Bytes) (hs : SanePol pol)
     (h1 : (readSol fx fm nv nc pol bytes).code ≠ .ok) (h2 : (readSol fx fm nv nc pol bytes).code ≠ .badOptions) :
@@ -318,10 +319,40 @@ theorem C14_options_array_bound_text (inp r : Bytes) (o : Opts) (h : optsText in
         · simp only [hv] at h
           simp at h; obtain ⟨h1, _⟩ := h; subst h1; simp [l4, lm]; omega
 
+theorem i32s_length (k : Nat) (b : Bytes) : (i32s k b).length = k := by
+  induction k generalizing b with
+  | zero => simp [i32s]
+  | succ k ih => simp [i32s, ih]
+
+/-- the same for the binary format: an accepted Options record stored exactly `nOpts + 5 ≤ 14` integers -/
+theorem C14_options_array_bound_bin (L : Nat) (inp r : Bytes) (o : Opts) (h : optsBin L inp = .ok (o, r)) :
+    o.opts.length = o.nOpts + 5 ∧ o.nOpts + 5 ≤ 14 ∧ 1 ≤ o.nOpts := by
+  unfold optsBin at h
+  split at h
+  · simp at h
+  · split at h
+    · simp at h
+    · split at h
+      · simp at h
+      · split at h
+        · dsimp only at h; split at h <;> simp at h
+        · dsimp only at h
+          split at h
+          · simp at h
+          · rename_i nOpts vb hh
+            have hb := optHeader_bound hh
+            repeat' split at h
+            all_goals first
+              | (simp at h; done)
+              | (simp at h; obtain ⟨h1, _⟩ := h; subst h1; simp [i32s_length]; omega)
+
 /-- … and every later use of the options (`z[1]`, `z[3]`) reads an entry that was stored -/
-theorem C14_options_index_in_bounds (inp r : Bytes) (o : Opts) (h : optsText inp = .ok (o, r)) (i : Nat) (hi : i ≤ 3) :
+theorem C14_options_index_in_bounds (inp r : Bytes) (o : Opts) (L : Nat)
+    (h : optsText inp = .ok (o, r) ∨ optsBin L inp = .ok (o, r)) (i : Nat) (hi : i ≤ 3) :
     o.nOpts + 1 + i < o.opts.length := by
-  have := C14_options_array_bound_text inp r o h; omega
+  rcases h with h | h
+  · have := C14_options_array_bound_text inp r o h; omega
+  · have := C14_options_array_bound_bin L inp r o h; omega
 
 /-! ## translator ties (ROUND 4)
 
